@@ -490,46 +490,59 @@ def forkOk (l : Life.S) : Rec → Prop
     if pid ≠ ppid then Life.curProc l pid = none
     else tid ≠ pid ∧ tid ≠ ptid ∧ ∀ pi, Life.curProc l ppid = some pi → Life.curThread l pi tid = none
   | .comm pid tid _ isExec _ => isExec = true → pid = tid
-  | .exit pid tid _ => pid ≠ tid → Life.curProc l pid ≠ none
   | _ => True
 
 theorem step_exit (s : St) (pid tid t : Nat) :
     step s (.exit pid tid t) =
       if pid = tid then removeProc s pid (conv s t)
-      else (removeThread (getByPid s pid).1 (getByPid s pid).2 tid (conv s t)).1 := rfl
+      else match alGet s.procs pid with
+        | none => s
+        | some p => (removeThread s p tid (conv s t)).1 := rfl
 
-theorem lstep_exit (l : Life.S) (pid tid t : Nat) (hok : pid ≠ tid → Life.curProc l pid ≠ none) :
+theorem lstep_exit (l : Life.S) (pid tid t : Nat) :
     Life.step l (.exit pid tid t) =
       if pid = tid then
         match Life.curProc l pid with
         | some pi => Life.endProc l pi (Life.conv l t)
         | none => l
       else
-        match Life.curThread (Life.ensureProc l pid).1 (Life.ensureProc l pid).2 tid with
-        | some i => Life.endThread (Life.ensureProc l pid).1 i (Life.conv l t)
-        | none => (Life.ensureProc l pid).1 := by
+        match Life.curProc l pid with
+        | none => l
+        | some _ =>
+          match Life.curThread (Life.ensureProc l pid).1 (Life.ensureProc l pid).2 tid with
+          | some i => Life.endThread (Life.ensureProc l pid).1 i (Life.conv l t)
+          | none => (Life.ensureProc l pid).1 := by
   by_cases hpt : pid = tid
   · simp only [Life.step, if_pos hpt]; rfl
   · cases hc : Life.curProc l pid with
-    | none => exact absurd hc (hok hpt)
+    | none => simp only [Life.step, if_neg hpt, hc]
     | some pi => simp only [Life.step, if_neg hpt, hc]; rfl
 
 theorem Sim.conv {s : St} {l : Life.S} (h : Sim s l) (t : Nat) : Conv.conv s t = Life.conv l t := by
   unfold Conv.conv Life.conv; rw [h.tab.ref]
 
-theorem sim_exit {s : St} {l : Life.S} (h : Sim s l) (pid tid t : Nat)
-    (hok : forkOk l (.exit pid tid t)) :
+theorem getByPid_bound {s : St} {pid : Nat} {p : ProcC} (hb : alGet s.procs pid = some p) :
+    getByPid s pid = (s, p) := by
+  unfold getByPid; rw [hb]
+
+theorem sim_exit {s : St} {l : Life.S} (h : Sim s l) (pid tid t : Nat) :
     Sim (step s (.exit pid tid t)) (Life.step l (.exit pid tid t)) := by
-  rw [step_exit, lstep_exit _ _ _ _ hok, h.conv]
+  rw [step_exit, lstep_exit, h.conv]
   by_cases hpt : pid = tid
   · rw [if_pos hpt, if_pos hpt]
     cases hb : alGet s.procs pid with
     | none => rw [removeProc_none hb, h.live.curProc_unbound hb]; exact h
     | some p => rw [h.live.curProc_bound hb]; exact h.endProc hb _
   · rw [if_neg hpt, if_neg hpt]
-    obtain ⟨h1, hb1, hh1, _⟩ := h.getByPid pid
-    rw [← hh1]
-    exact h1.removeThread hb1 (Ne.symm hpt) _
+    cases hb : alGet s.procs pid with
+    | none => rw [h.live.curProc_unbound hb]; exact h
+    | some p =>
+      rw [h.live.curProc_bound hb]
+      obtain ⟨h1, hb1, hh1, _⟩ := h.getByPid pid
+      rw [getByPid_bound hb] at h1 hb1 hh1
+      simp only at h1 hb1 hh1
+      rw [← hh1]
+      exact h1.removeThread hb1 (Ne.symm hpt) _
 
 /-! ### One record: COMM -/
 
@@ -872,7 +885,7 @@ theorem sim_step {s : St} {l : Life.S} (h : Sim s l) (r : Rec) (hok : forkOk l r
   cases r with
   | sample pid tid t km period ip chain => exact sim_sample h pid tid t km period ip chain
   | fork pid tid ppid ptid t => exact sim_fork h pid tid ppid ptid t hok
-  | exit pid tid t => exact sim_exit h pid tid t hok
+  | exit pid tid t => exact sim_exit h pid tid t
   | comm pid tid name isExec t => exact sim_comm h pid tid name isExec t hok
   | mmap2 pid tid addr len pgoff exec path t => exact sim_mmap2 h pid tid addr len pgoff exec path t
   | switchIn pid tid t => exact sim_switchIn h pid tid t
@@ -881,20 +894,14 @@ theorem sim_step {s : St} {l : Life.S} (h : Sim s l) (r : Rec) (hok : forkOk l r
 
 theorem gStep_s (g : Life.G) (r : Rec) : (Life.gStep g r).s = Life.step g.s r := rfl
 
-theorem gStep_ok {g : Life.G} {r : Rec} (h : (Life.gStep g r).ok = true) (ho : (Life.gStep g r).orphan = false) :
-    (g.ok = true ∧ g.orphan = false) ∧ forkOk g.s r := by
-  unfold Life.gStep at h ho
+theorem gStep_ok {g : Life.G} {r : Rec} (h : (Life.gStep g r).ok = true) : g.ok = true ∧ forkOk g.s r := by
+  unfold Life.gStep at h
   simp only [Bool.and_eq_true] at h
-  simp only [Bool.or_eq_false_iff] at ho
   obtain ⟨h1, h2⟩ := h
-  refine ⟨⟨h1, ho.1⟩, ?_⟩
+  refine ⟨h1, ?_⟩
   cases r with
   | sample pid tid t km period ip chain => trivial
-  | exit pid tid t =>
-    simp only [forkOk]
-    intro hne hc
-    have := ho.2
-    simp [Life.orphanExit, hne, hc] at this
+  | exit pid tid t => trivial
   | mmap2 pid tid addr len pgoff exec path t => trivial
   | switchIn pid tid t => trivial
   | switchOut pid tid t => trivial
@@ -920,22 +927,19 @@ theorem gStep_ok {g : Life.G} {r : Rec} (h : (Life.gStep g r).ok = true) (ho : (
         simp only [Bool.and_eq_true, bne_iff_ne, ne_eq, Option.isNone_iff_eq_none] at h2
         exact ⟨h2.1.2, h2.2, fun pi' hpi' => by cases hpi'; exact h2.1.1⟩
 
-theorem foldl_gStep_ok {rs : List Rec} {g : Life.G} (h : (rs.foldl Life.gStep g).ok = true)
-    (ho : (rs.foldl Life.gStep g).orphan = false) : g.ok = true ∧ g.orphan = false := by
+theorem foldl_gStep_ok {rs : List Rec} {g : Life.G} (h : (rs.foldl Life.gStep g).ok = true) : g.ok = true := by
   induction rs generalizing g with
-  | nil => exact ⟨h, ho⟩
-  | cons r rs ih => exact (gStep_ok (ih h ho).1 (ih h ho).2).1
+  | nil => exact h
+  | cons r rs ih => exact (gStep_ok (ih h)).1
 
 theorem sim_fold (rs : List Rec) (g : Life.G) (s : St) (h : Sim s g.s)
-    (hok : (rs.foldl Life.gStep g).ok = true) (ho : (rs.foldl Life.gStep g).orphan = false) :
-    Sim (rs.foldl step s) (rs.foldl Life.step g.s) := by
+    (hok : (rs.foldl Life.gStep g).ok = true) : Sim (rs.foldl step s) (rs.foldl Life.step g.s) := by
   induction rs generalizing g s with
   | nil => exact h
   | cons r rs ih =>
-    rw [List.foldl_cons] at hok ho ⊢
+    rw [List.foldl_cons] at hok ⊢
     rw [List.foldl_cons, ← gStep_s]
-    have hg := foldl_gStep_ok hok ho
-    exact ih (Life.gStep g r) (step s r) (sim_step h r (gStep_ok hg.1 hg.2).2) hok ho
+    exact ih (Life.gStep g r) (step s r) (sim_step h r (gStep_ok (foldl_gStep_ok hok)).2) hok
 
 theorem sim_init (cfg : Config) (hr : cfg.reuse = false) : Sim (St.init cfg) { ref := cfg.ref, cur := cfg.ref } := by
   refine ⟨⟨rfl, rfl, hr, rfl, rfl, fun _ => rfl, fun _ => rfl⟩, ⟨?_, ?_, ?_⟩⟩
@@ -944,10 +948,8 @@ theorem sim_init (cfg : Config) (hr : cfg.reuse = false) : Sim (St.init cfg) { r
   · intro i ti hti; simp at hti
 
 theorem sim_run (cfg : Config) (rs : List Rec) (hr : cfg.reuse = false)
-    (hg : Life.grammarOk cfg.ref rs = true) (ho : Life.orphanFree cfg.ref rs = true) :
-    Sim (run cfg rs) (Life.run cfg.ref rs) :=
+    (hg : Life.grammarOk cfg.ref rs = true) : Sim (run cfg rs) (Life.run cfg.ref rs) :=
   sim_fold rs { s := { ref := cfg.ref, cur := cfg.ref } } (St.init cfg) (sim_init cfg hr) hg
-    (by simpa [Life.orphanFree] using ho)
 
 /-! ### The output abstraction -/
 
